@@ -65,7 +65,7 @@ def main():
     suite.run(ctx)
     res = ctx.res
     # extraction cross-check: a sample of this run's driver answers is re-evaluated by the kernel (vm_compute)
-    if build.driver_ok and common.XLOG:
+    if build.driver_ok and common.XLOG and not os.environ.get("VERIF_NO_XCHECK"):
         import xcheck
         k = 120 if tier == "quick" else 1200
         sample = ctx.rnd.sample(common.XLOG, min(k, len(common.XLOG)))
